@@ -275,7 +275,7 @@ STYLE_KEYS = (
     'text_decoration_style', 'text_align_all', 'text_align_last', 'column_count', 'column_width', 'column_gap',
     'row_gap', 'flex_direction', 'flex_wrap', 'flex_grow', 'flex_shrink', 'flex_basis', 'overflow_wrap',
     'break_before', 'break_after', 'break_inside', 'border_top_left_radius', 'border_bottom_right_radius',
-    'column_rule_width', 'column_rule_style', 'column_rule_color', 'max_lines', 'block_ellipsis',
+    'column_rule_style', 'column_rule_color', 'max_lines', 'block_ellipsis',
     'display', 'float', 'position', 'opacity', 'visibility', 'text_indent', 'letter_spacing', 'word_spacing',
 )
 GEOMETRY = ('position_x', 'position_y', 'width', 'height', 'margin_top', 'margin_right', 'margin_bottom',
